@@ -37,6 +37,17 @@ SAFE_STR = {
 }
 
 
+def _defaults():
+    out = {}
+    for f in dataclasses.fields(fs.ProjectSettings):
+        if f.default is not dataclasses.MISSING:
+            out[f.name] = f.default
+    return out
+
+
+DEFAULTS = _defaults()
+
+
 def type_class(tp):
     o = typing.get_origin(tp)
     args = typing.get_args(tp)
@@ -75,9 +86,14 @@ def values_for(name, cls, rng):
     if base == "str":
         if name in ("summary", "author_description", "project_url", "privacy_policy_url", "terms_of_service_url"):
             return ["abc", "two words"] + (["first line\nNote: second line\nhttps://example.org/third"] if name in ("summary", "author_description") else ["https://example.org/a/b"])
-        return ["abc", "two words", "x_y-z.1", "Caps And 123"]
+        return ["abc", "two words", "x_y-z.1", "Caps And 123", '3.5" floppy tools', "it's 'quoted' \\ back"]
     if base == "path":
-        return ["sub/dir", "./a/../b", "plain", "/abs/olute/p"]
+        vals = ["sub/dir", "./a/../b", "plain", "/abs/olute/p"]
+        # the user's own file or directory named like the built-in default (favicon.png next to the project file ...)
+        dflt = DEFAULTS.get(name)
+        if isinstance(dflt, (str, Path)) and Path(dflt).name:
+            vals += [Path(dflt).name, "./" + Path(dflt).name]
+        return vals
     if base == "list_str":
         if name == "display":
             return [["public"], ["PUBLIC", "Private"], ["none"], ["public", "protected", "private"]]
